@@ -62,6 +62,7 @@ def apply(r, P, m, text):
     gl = P['globals']
     hit = [0]
     p = 0.3
+    local_only = r.random() < 0.6      # assign-to-val: only the local val is a target (the source stays acceptable)
 
     def pick():
         hit[0] += 1
@@ -113,7 +114,7 @@ def apply(r, P, m, text):
             fn = [q['name'] for q in procs if q['kind'] == 'func']
             return ('pcall', r.choice(fn), s[2]) if fn else None
         if m == 'assign-to-val' and s[0] == 'ass' and s[1][0] == 'var' and pick():
-            vals = [g[1] for g in gl if g[0] == 'val'] + [q['name'] for q in procs] + ['lv9', 'lv9']
+            vals = ['lv9'] if local_only else [g[1] for g in gl if g[0] == 'val'] + [q['name'] for q in procs] + ['lv9', 'lv9']
             return ('ass', ('var', r.choice(vals)), s[2]) if vals else None
         if m == 'bad-syscall' and s[0] == 'syscall' and pick():
             return ('syscall', r.choice([3, 4, 255, 2**31]), s[2])
